@@ -62,6 +62,11 @@ def is_user_source(expr):
         return "USER:net.%s" % a
     if isinstance(expr, ast.Call) and callee_name(expr) == "get_fluid":
         return "USER:fluid"
+    if isinstance(expr, ast.Call) and isinstance(expr.func, ast.Attribute) and expr.func.attr in ("get", "setdefault") \
+            and isinstance(expr.func.value, ast.Name) and expr.func.value.id == "net" and expr.args:
+        k = const_str(expr.args[0])
+        if k is not None and not (k.startswith("_") or k.startswith("res_") or k in ("converged", "component_list")):
+            return "USER:net[%r]" % k
     return None
 
 
